@@ -32,6 +32,23 @@ CLAIMS["C08"] = dict(
     design="DESIGN.md section 4, C08",
 )
 
+CLAIMS["C14"] = dict(
+    text=("Deductive proof (16/64-bit bit-vector semantics, all 65536 wrap positions, every power-of-two buffer size up to 16384) of the "
+          "reorder buffer: representation invariant of the ring (slot at distance k holds sequence number last+1+k), returned packets "
+          "strictly increasing modulo 2^16, a packet displaced by less than the buffer size is stored and not dropped, loss count equals "
+          "the skipped sequence numbers, restart detected after exactly buffer-size+1 negative packets; and of ProcessPacket2: counters "
+          "(received, lost, since-report) advance by exactly the returned amounts, last sequence number and cycle counter updates."),
+    note=TRUST + "Loop invariants are hand-written and slot-indexed; the counting function cnt is introduced by definitional axioms and its two lemmas are proved by induction in the same run. Jitter (floating point) and the RTCP report formula are not decided.",
+    design="DESIGN.md section 4, C14 and appendix C.1",
+)
+CLAIMS["C15"] = dict(
+    text=("Deductive proof of the 64-bit continuation step of RTP timestamps (bit-vector semantics: the PTS advances by the signed "
+          "32-bit difference for every previous/next timestamp pair, any wrap position) and of the integer rescaling helper "
+          "(result within one unit of v*m/d for all non-negative v, m and positive d)."),
+    note=TRUST + "NTP encode/decode (float64 rounding), GlobalDecoder.Decode as a whole (maps, time.Now) and the sender-report mapping are not decided.",
+    design="DESIGN.md section 4, C15",
+)
+
 NOT_APPLICABLE = {
     "C11": "process-level property over channels, goroutines and timeouts (no deadlock, cleanup of goroutines/sessions): not expressible as a contract on one call or one data structure; the leaf validators it relies on are covered under other properties",
     "C13": "liveness and schedule property (Close returns in bounded time under all interleavings, no leaked goroutine or socket, callback ordering): outside sequential contract-based verification",
